@@ -611,8 +611,12 @@ def resolver_details(F):
     return r
 
 
-def scoped_pending(F):
-    r = RuleResult("R-SCOPED-PENDING",
+def flag_reset(F):
+    return scoped_pending(F, parts=("flag",))
+
+
+def scoped_pending(F, parts=("containers",)):
+    r = RuleResult("R-SCOPED-PENDING" if parts == ("containers",) else "R-FLAG-RESET",
                    "pending bodies consumed at Else/End are looked up by the current block id (a container that is iterated and cleared wholesale at the next Else/End is unscoped: a nested block's end consumes the outer if-arm's exit probe); and in resolve_bodies each flag-guarded body resets its flag inside the guard")
     rs = F.one_fn(name="resolve_special_instrumentation", self_adt="Module")
     r.analysed.append(rs["path"])
@@ -633,13 +637,40 @@ def scoped_pending(F):
             r.violate("%s | %s unscoped" % (rs["path"], name), F.loc(rs),
                       "pending container `%s` is %s and is %s: bodies planned for an if-arm are emitted at the first nested else/end instead of the arm's own" % (
                           name, "keyed by block id" if keyed_by_block else "not keyed by block id", "cleared wholesale at every Else/End" if whole else "consumed by key"))
+    if "flag" not in parts:
+        return r
     rb = F.one_fn(name="resolve_bodies")
     r.analysed.append(rb["path"])
-    # flag reset: within the flagged loop, after local_get(flag)+if_stmt there must be a (const 0; local_set flag)
-    has_get = any(n.get("k") == "MethodCall" and n["method"] == "local_get" for n in walk(rb["body"]))
-    has_reset = any(n.get("k") == "MethodCall" and n["method"] == "local_set" for n in walk(rb["body"]))
-    ok = has_get and has_reset
-    r.ob(ok, {"flag read": has_get, "flag reset inside guard": has_reset})
+    # flag reset: in every iteration of the flagged loop: local_get(flag) → if_stmt → … i32_const(0); local_set(flag) … before the guard's end
+    loop_body = None
+    for m in walk(rb["body"]):
+        if m.get("k") == "Match" and m.get("src") == "ForLoopDesugar" and any(x.get("k") == "MethodCall" and x["method"] == "local_get" for x in walk(m)):
+            loop_body = m
+            break
+    if loop_body is None:
+        raise CheckError("anchor changed: resolve_bodies has no loop that reads the flag")
+
+    def clf(n):
+        if n.get("k") == "MethodCall" and n["method"] in ("local_get", "if_stmt", "local_set", "inject_all", "else_stmt", "end"):
+            if n["method"] == "local_set":
+                return "local_set"
+            return n["method"]
+        if n.get("k") == "MethodCall" and n["method"] == "i32_const":
+            return "const:%s" % lit_int(peel(n["args"][0]).get("lit", ""))
+        return None
+
+    ok = True
+    n_paths = 0
+    for ev, st in normal_paths(paths(loop_body, clf)):
+        if "local_get" not in ev:
+            continue
+        n_paths += 1
+        i_if = ev.index("if_stmt") if "if_stmt" in ev else -1
+        resets = [i for i, e in enumerate(ev) if e == "local_set" and i > i_if and i > 0 and ev[i - 1] == "const:0"]
+        if i_if < 0 or not resets:
+            ok = False
+    has_get = n_paths > 0
+    r.ob(ok, {"flag-guarded paths": n_paths, "flag reset inside guard on all": ok})
     if not ok:
         r.violate("%s | flag never reset" % rb["path"], F.loc(rb),
                   "resolve_bodies guards the body with `local.get flag; if` but never resets the flag inside the guard: once a branch was taken, a later fall-through arrival at the same end runs the body again")
